@@ -383,12 +383,20 @@ Proof.
     rewrite swap_pairs_app by (rewrite rev_length; exact H). rewrite (IH H). reflexivity.
 Qed.
 
+Lemma filt_swap a x f1 f2 : filt (swap_a a) x f1 f2 = filt a x f1 f2.
+Proof. unfold filt. cbn [swap_a a_a0 a_b0 a_b1]. reflexivity. Qed.
+
+Ltac swap_norm :=
+  cbn [swap_s swap_a swap_pairs s_pos s_frac s_ovl s_ovr s_l1 s_l2 s_r1 s_r2 a_vl a_vr a_dl a_dr a_step a_a0 a_b0 a_b1 andb].
+
 Lemma kstep_swap c m a ac s outs s' : k_sin c = false -> k_sout c = true ->
   kstep c m a ac s = Some (outs, s') -> kstep c m (swap_a a) ac (swap_s s) = Some (swap_pairs outs, swap_s s').
 Proof.
   intros Hsin Hsout. unfold kstep. change (fetch c m (swap_s s) 0) with (fetch c m s 0). rewrite Hsin, Hsout.
-  destruct (fetch c m s 0) as [l0|]; [|discriminate]. unfold filt. cbv zeta.
-  destruct (k_filter c); destruct ac; cbn [andb]; cbv iota; intros H; injection H as <- <-; reflexivity.
+  destruct (fetch c m s 0) as [l0|]; [|discriminate]. rewrite !filt_swap. rewrite !Bool.andb_false_r.
+  change (s_l1 (swap_s s)) with (s_l1 s). change (s_l2 (swap_s s)) with (s_l2 s).
+  destruct (if k_filter c then _ else _) as [[l l1'] l2'].
+  destruct ac; intros H; injection H as <- <-; unfold advance; swap_norm; reflexivity.
 Qed.
 
 Lemma kloop_swap : forall n c m a ac s acc acc' s', k_sin c = false -> k_sout c = true ->
@@ -418,16 +426,16 @@ Proof.
   intros c m a count ramp s contrib s' Hsin Hsout H.
   assert (Hcase : k_interp c = Nearest \/ k_interp c <> Nearest) by (destruct (k_interp c); [left; reflexivity | right; discriminate ..]).
   destruct Hcase as [Hn|Hn].
-  - rewrite (contributions_nearest _ _ _ _ _ _ Hn) in *.
+  - rewrite (contributions_nearest _ _ _ _ _ _ Hn) in H. rewrite (contributions_nearest _ _ _ _ _ _ Hn).
     change (advance (chn_of c) 32768 (swap_s s)) with (swap_s (advance (chn_of c) 32768 s)).
     destruct (kloop _ c m a false _ []) as [[acc s1]|] eqn:E; [|discriminate]. injection H as <- <-.
-    pose proof (kloop_even _ _ _ _ _ _ _ _ _ Hsout eq_refl E) as Hev.
+    pose proof (kloop_even _ _ _ _ _ _ [] _ _ Hsout eq_refl E) as Hev.
     apply (kloop_swap _ _ _ _ _ _ _ _ _ Hsin Hsout) in E. cbn [swap_pairs] in E. rewrite E.
     rewrite !rev_append_rev, !app_nil_r, swap_pairs_rev by exact Hev. reflexivity.
-  - rewrite (contributions_two_loops _ _ _ _ _ _ Hn) in *.
+  - rewrite (contributions_two_loops _ _ _ _ _ _ Hn) in H. rewrite (contributions_two_loops _ _ _ _ _ _ Hn).
     destruct (kloop _ c m a true s []) as [[acc s1]|] eqn:E; [|discriminate].
     destruct (kloop _ c m a false s1 acc) as [[acc2 s2]|] eqn:E2; [|discriminate]. injection H as <- <-.
-    pose proof (kloop_even _ _ _ _ _ _ _ _ _ Hsout eq_refl E) as Hev.
+    pose proof (kloop_even _ _ _ _ _ _ [] _ _ Hsout eq_refl E) as Hev.
     pose proof (kloop_even _ _ _ _ _ _ _ _ _ Hsout Hev E2) as Hev2.
     apply (kloop_swap _ _ _ _ _ _ _ _ _ Hsin Hsout) in E. cbn [swap_pairs] in E. rewrite E.
     apply (kloop_swap _ _ _ _ _ _ _ _ _ Hsin Hsout) in E2. rewrite E2.
@@ -442,7 +450,44 @@ Lemma linear_fetch_between : forall c m s off v v0 v1, k_interp c = Linear -> 0 
   Z.min (sc v0) (sc v1) <= v <= Z.max (sc v0) (sc v1).
 Proof.
   intros c m s off v v0 v1 Hi Hf H E0 E1 sc. unfold fetch in H. rewrite Hi in H. cbv zeta in H. rewrite E0, E1 in H.
-  injection H as <-. fold (sc v0). fold (sc v1). generalize (sc v0) (sc v1). clear. intros x y.
+  injection H as <-. fold (sc v0). fold (sc v1). generalize (sc v0) (sc v1). clear - Hf. intros x y.
   change (C_SMIX_SHIFT - 1) with 15. rewrite !Z.shiftr_div_pow2 by lia. change (2 ^ 1) with 2. change (2 ^ 15) with 32768.
-  revert Hf.
-Abort.
+  assert (Ht : 0 <= s_frac s / 2 <= 32767) by lia. generalize dependent (s_frac s / 2). clear. intros t Ht.
+  destruct (Z.le_gt_cases x y) as [Hxy|Hxy].
+  - assert (H1 : 0 <= t * (y - x)) by (apply Z.mul_nonneg_nonneg; lia).
+    assert (H2 : t * (y - x) <= 32767 * (y - x)) by (apply Z.mul_le_mono_nonneg_r; lia).
+    generalize dependent (t * (y - x)). intros p H1 H2. lia.
+  - assert (H1 : t * (y - x) <= 0) by (apply Z.mul_nonneg_nonpos; lia).
+    assert (H2 : 32767 * (y - x) <= t * (y - x)) by (apply Z.mul_le_mono_nonpos_r; lia).
+    generalize dependent (t * (y - x)). intros p H1 H2. lia.
+Qed.
+
+Lemma clampf_range x : C_FILTER_MIN <= clampf x <= C_FILTER_MAX.
+Proof.
+  unfold clampf, C_FILTER_MIN, C_FILTER_MAX. destruct (Z.ltb_spec x (-2147483648)) as [H|H]; [lia|].
+  destruct (Z.ltb_spec 2147450880 x) as [H'|H']; lia.
+Qed.
+
+Lemma filt_state_in_int32 : forall a smp f1 f2 out n1 n2, filt a smp f1 f2 = (out, n1, n2) ->
+  C_FILTER_MIN <= n1 <= C_FILTER_MAX /\ n2 = f1 /\ -65536 <= out <= 65535.
+Proof.
+  intros a smp f1 f2 out n1 n2. unfold filt. cbv zeta. set (s64 := Z.shiftr _ C_FILTER_SHIFT). clearbody s64.
+  intros H. injection H as <- <- <-. pose proof (clampf_range s64) as Hc. split; [exact Hc|]. split; [reflexivity|].
+  change C_PREAMP_BITS with 15. rewrite Z.shiftr_div_pow2 by lia. change (2 ^ 15) with 32768.
+  unfold C_FILTER_MIN, C_FILTER_MAX in Hc. lia.
+Qed.
+
+Print Assumptions kernel_additive.
+Print Assumptions kernel_touches_only_its_frames.
+Print Assumptions kernel_reads_in_window.
+Print Assumptions kernel_zero_gain_is_silent.
+Print Assumptions kernel_swap_gains.
+Print Assumptions add_into_spec.
+Print Assumptions add_into_some.
+Print Assumptions contributions_length.
+Print Assumptions advance_spec.
+Print Assumptions kloop_position.
+Print Assumptions linear_fetch_between.
+Print Assumptions filt_state_in_int32.
+Print Assumptions forward_positions_below_end.
+Print Assumptions reverse_positions_above_start.
